@@ -11,3 +11,4 @@ import GPy.C01.Props
 import GPy.C04.Props
 import GPy.C12.Props
 import GPy.C13.Props
+import GPy.C02.Props
